@@ -1423,6 +1423,17 @@ func runC13(c *Ctx) {
 		return
 	}
 	if c.Replay != "" {
+		if b, err := os.ReadFile(c.Replay); err == nil { // a case of the reader streams?
+			var w struct{ Input c06Case }
+			var rc c06Case
+			if json.Unmarshal(b, &w) == nil && (w.Input.Kind == "feed" || w.Input.Kind == "proc" || w.Input.Kind == "ops") {
+				c06Run(c, &w.Input)
+				return
+			} else if json.Unmarshal(b, &rc) == nil && (rc.Kind == "feed" || rc.Kind == "proc" || rc.Kind == "ops") {
+				c06Run(c, &rc)
+				return
+			}
+		}
 		var cs c13Case
 		b, err := os.ReadFile(c.Replay)
 		if err == nil {
@@ -1443,6 +1454,24 @@ func runC13(c *Ctx) {
 			c13Run(c, cs)
 			c.Rep.Count("corpus")
 		}
+	}
+	// "items never change after they have been read" starts in the reader: records that straddle read boundaries must
+	// stay intact when later reads reuse the buffers. Run the record-reader streams of the C06 package (contents are read
+	// back AFTER the whole stream) on big inputs with many straddling records.
+	{
+		n := c.N(40, 600)
+		seeds := make([]*RNG, n)
+		for i := range seeds {
+			seeds[i] = c.Rng.Fork()
+		}
+		parallel(c, n, func(i int, _ *RNG) { c06Feed(c, c06GenBig(seeds[i], "feed", false)) })
+		np := c.N(20, 300)
+		pseeds := make([]*RNG, np)
+		for i := range pseeds {
+			pseeds[i] = c.Rng.Fork()
+		}
+		parallel(c, np, func(i int, _ *RNG) { c06Proc(c, c06GenProc(pseeds[i])) })
+		c.Rep.Count("reader-streams")
 	}
 	c13Slices(c)
 	gen := func(n int, g func(r *RNG) c13Case) {
